@@ -294,6 +294,12 @@ def cases(tier, seed):
 # spellings at the edge of the accepted language (refused today, or accepted in some form): if a change of the grammar
 # lets one through, its output must still be well-formed
 NEAR_MISS_TEXTS = [
+    # look-alikes of the quotation mark, the apostrophe, the minus sign and the ellipsis (word-processor characters in a
+    # listing) inside constants, DATA items, prompts and remarks: ordinary characters to the grammar, ordinary characters
+    # in what is emitted
+    '10 A$="5\u201d DISK"', '10 PRINT "SAY \u201cHI\u201d NOW"', '10 DATA NAIL 3\u201d,\u201cX\u201d\n20 READ A$,B$', '10 INPUT "HOW MANY 5\u201d DISKS";N',
+    '10 A$="IT\u2019S":PRINT A$;"\u2018Q\u2019"', '10 PRINT "A \u2013 B \u2014 C\u2026"', "10 REM \u201cQUOTED\u201d REMARK\n20 ' IT\u2019S", '10 PRINT "OPEN \u201cLITERAL',
+    '10 HPRINT(1,2),"\u201cHI\u201d":PLAY "C"', '10 A=INSTR(1,A$,"\u201d"):B$=STRING$(3,"\u201c")',
     # POKE to addresses that mean something special to the tool today (the two speed pokes) or might tomorrow (the low-memory
     # and GIME registers a CoCo program pokes routinely), with a converted function in the value
     '10 POKE 65497,INT(A)', '10 IF A THEN POKE 65497,INT(A):B=1',
